@@ -7,6 +7,8 @@ CONSTANTS
     ColSets = {{"k", "x"}, {"x", "q"}}
     Kinds = {"time_course"}
     FailModes = {"intfail"}
+    LabelSchemes = {"shuffled", "repeated"}
+    KeyedByLabel = FALSE
     NameSchemes = {"plain"}
     Y0s = {0, 9}
     Y0Again = FALSE
